@@ -692,3 +692,10 @@ M.contract('exactly_lib.cli.main_program:MainProgram.execute_test_case',
 # the real tree; they carry C17 as well.  (After the seeded change C17-s5: `return os.environ`.)
 M.shared_checks = [('C11', 'default-environ'),
                    ('C04', 'frame: os.environ is never written, chdir call sites are the known ones')]
+
+
+# Assumed summaries of this module that follow from contracts PROVED for another property (Module.implied_by, ENGINE.md):
+# the refinement obligations are generated by this property's check and the proved contract is re-proved here.
+M.implied_by('exactly_lib.test_suite.file_reading.suite_file_reading:read_suite_document', 'C16')
+M.implied_by('exactly_lib.test_suite.file_reading.suite_hierarchy_reading:_SingleFileReader._resolve_paths', 'C16')
+M.implied_by('exactly_lib.test_suite.processing:Processor.process_reporter', 'C16')
